@@ -23,6 +23,7 @@ import (
 	"strings"
 
 	"github.com/zclconf/go-cty/cty"
+	ctyjson "github.com/zclconf/go-cty/cty/json"
 )
 
 // d17PlainUnknown: the extension item of a plain unknown value, fixext1 code 0: d4 00 00
@@ -110,4 +111,52 @@ func init() {
 		m.flush()
 		m.judge.finish()
 	})
+}
+
+// d17JsonDepthBoundary: json.ImpliedType at its nesting limit (/repo 0c63e6a, maxImpliedTypeDepth = 10000, which the
+// Lean side reads from the source: Generated.jsonMaxImpliedTypeDepth).  Arrays and objects nested 9999, 10000, 10001
+// and 10002 deep run on the real code and through the model WITH the limit (driver op d17.jsonimplied,
+// lean/CtyModel/d17JsonDepth.lean): a type up to 10000, an error beyond.  (encoding/json's own Valid / Unmarshal refuse
+// the deeper ones, so the trees are written here by hand.)
+func d17JsonDepthBoundary(ctx *Ctx) {
+	for _, d := range []int{3, 9999, 10000, 10001, 10002} {
+		for _, shape := range []string{"arrays", "objects"} {
+			var b []byte
+			var tree string
+			if shape == "arrays" {
+				b = c17jFamily("arrays", d+1)[1 : 2*d+1] // d arrays around nothing: [[…[]…]]
+				tree = strings.Repeat("(ja ", d-1) + "(ja)" + strings.Repeat(")", d-1)
+			} else {
+				b = c17jFamily("objects", d) // d objects around the number 1
+				tree = strings.Repeat("(jo (x61 ", d) + "(jn x31)" + strings.Repeat("))", d)
+			}
+			var ty cty.Type
+			var err error
+			out := "ok"
+			if p, why := try(func() { ty, err = ctyjson.ImpliedType(b) }); p {
+				out = "panic"
+				ctx.Fail(Failure{Site: "no-panic", Sig: "json.ImpliedType:at-nesting-limit", What: "ImpliedType panics at its nesting limit: " + why,
+					Input: fmt.Sprintf("%s nested %d deep", shape, d), GoLit: fmt.Sprintf("json.ImpliedType(%s nested %d deep)", shape, d), Outcome: "panic"})
+			} else if err != nil {
+				out = "err"
+			}
+			want := "ok"
+			if d > 10000 {
+				want = "err"
+			}
+			ctx.Eval(fmt.Sprintf("family implied-depth-boundary %s %d", shape, d), true)
+			ctx.Tag(fmt.Sprintf("family:implied-depth-boundary:%s-%d:%s", shape, d, out))
+			if out != want && out != "panic" {
+				ctx.Fail(Failure{Site: "regression", Sig: "json.ImpliedType:0c63e6a:nesting-limit-" + fmt.Sprint(d), What: "json.ImpliedType at its nesting limit (/repo 0c63e6a): want " + want,
+					Input: fmt.Sprintf("%s nested %d deep", shape, d), GoLit: fmt.Sprintf("json.ImpliedType(%s nested %d deep)", shape, d), Outcome: out})
+			}
+			impl := out
+			if out == "ok" {
+				impl = "ok " + c17jTyWire(ty)
+			}
+			if out != "panic" {
+				ctx.Add("d17.jsonimplied", impl, "(tbl (nfc) (hk))", tree)
+			}
+		}
+	}
 }
